@@ -1,4 +1,206 @@
-(* Props/C11.v -- placeholder while the proofs are being built *)
-From EP Require Import Base.Bytes Defrag.Spec Defrag.Model.
-Theorem C11_stub : True. Proof. exact I. Qed.
-Print Assumptions C11_stub.
+(* Props/C11.v -- property C11: fragments reassemble to the original payload in
+   any arrival order.  Only statements; every proof is `exact <lemma>`.
+   Spec = Defrag/Spec.v (reassembly as a partial map offset -> byte + optional
+   end), Model = Defrag/Model.v (IpFragRange, IpDefragBuf, IpDefragPool). *)
+From EP Require Import Base.Bytes Defrag.Spec Defrag.Model Defrag.Proofs.
+Local Open Scope N_scope.
+
+(* ---- the invariant of IpDefragBuf: sections well formed, pairwise neither
+   overlapping nor touching; a byte of `data` is written (Some) exactly when a
+   section covers it; data length and u16 bounds as the code maintains them.
+   Established by new, kept by every successful add, and (model_step) an
+   erroneous add leaves the buffer as it was: every history, F8 included. ---- *)
+Theorem C11_inv_new : forall ipn d s, Inv (buf_new ipn d s).
+Proof. exact Inv_new. Qed.
+Print Assumptions C11_inv_new.
+
+Theorem C11_inv_add : forall b f b', Inv b -> add b f = AddOk b' -> Inv b'.
+Proof. exact add_preserves_Inv. Qed.
+Print Assumptions C11_inv_add.
+
+Theorem C11_inv_reachable : forall h b, Inv b -> Inv (model_run b h).
+Proof. exact model_run_Inv. Qed.
+Print Assumptions C11_inv_reachable.
+
+(* the slice `data[off..off+len]` and the unsafe `set_len(end)` are always in range *)
+Theorem C11_no_panic : forall b f, add b f <> AddPanic.
+Proof. exact add_never_panics. Qed.
+Print Assumptions C11_no_panic.
+
+(* ---- refinement: outside the known class F8 the buffer answers every delivery
+   of every history exactly like the Spec (verdict, completeness, payload) ---- *)
+Theorem C11_refines : forall h ipn d s, ~ KnownClass h ->
+  model_trace (buf_new ipn d s) h = spec_trace spec_new h.
+Proof. exact refines. Qed.
+Print Assumptions C11_refines.
+
+(* ---- any order: P any payload up to 65535 bytes, h any delivery list made of
+   fragments of P (any cut at multiples of 8, any overlapping re-cut, any
+   permutation, any duplicates); every prefix of such a list is such a list,
+   so "complete exactly from the first delivery on that completes the cover,
+   never before" is the first conjunct applied to the prefixes of h ---- *)
+Theorem C11_any_order : forall P h ipn d0 s0, len P <= 65535 -> Forall (frag_of P) h ->
+  let b := model_run (buf_new ipn d0 s0) h in
+  (is_complete b = true <-> Covered P h) /\
+  (is_complete b = true -> b_data b = map Some P) /\
+  Forall (fun o : obs => fst (fst o) = VOk) (model_trace (buf_new ipn d0 s0) h) /\
+  ~ KnownClass h.
+Proof. exact any_order. Qed.
+Print Assumptions C11_any_order.
+
+Theorem C11_any_order_prefix : forall P h k ipn d0 s0, len P <= 65535 -> Forall (frag_of P) h ->
+  let b := model_run (buf_new ipn d0 s0) (firstn k h) in
+  (is_complete b = true <-> Covered P (firstn k h)) /\
+  (is_complete b = true -> b_data b = map Some P).
+Proof. exact any_order_prefix. Qed.
+Print Assumptions C11_any_order_prefix.
+
+(* the same for an explicit cut: sizes = lengths of the non-final fragments in
+   units of 8 bytes; delivering any list over the fragments of the cut *)
+Theorem C11_cut_any_order : forall P sizes h ipn d0 s0, len P <= 65535 -> sumN sizes * 8 <= len P ->
+  (forall f, In f h -> In f (cut_at P 0 sizes)) ->
+  let b := model_run (buf_new ipn d0 s0) h in
+  (is_complete b = true <-> Covered P h) /\
+  (is_complete b = true -> b_data b = map Some P) /\
+  ((forall f, In f (cut_at P 0 sizes) -> In f h) -> is_complete b = true).
+Proof. exact cut_any_order. Qed.
+Print Assumptions C11_cut_any_order.
+
+(* ---- no leak: a completed buffer holds no byte that this datagram did not
+   write -- every history, the known class included ---- *)
+Theorem C11_no_leak : forall h ipn d s,
+  let b := model_run (buf_new ipn d s) h in
+  is_complete b = true -> no_None (b_data b).
+Proof. exact no_leak. Qed.
+Print Assumptions C11_no_leak.
+
+(* ---- rejects: the documented error, buffer unchanged ---- *)
+Theorem C11_reject_toobig : forall b f, 65535 < f_endp f ->
+  model_step b f = (VTooBig (f_fo f) (len (f_data f)), b).
+Proof. exact reject_toobig. Qed.
+Print Assumptions C11_reject_toobig.
+
+Theorem C11_reject_unaligned : forall b f,
+  f_endp f <= 65535 -> f_mf f = true -> len (f_data f) mod 8 <> 0 ->
+  model_step b f = (VUnaligned (f_fo f) (len (f_data f)), b).
+Proof. exact reject_unaligned. Qed.
+Print Assumptions C11_reject_unaligned.
+
+Theorem C11_reject_conflict : forall b f prev,
+  f_endp f <= 65535 -> (f_mf f = true -> len (f_data f) mod 8 = 0) ->
+  b_end b = Some prev -> (prev < f_endp f \/ (f_mf f = false /\ f_endp f <> prev)) ->
+  model_step b f = (VConflict prev (f_endp f), b).
+Proof. exact reject_conflict. Qed.
+Print Assumptions C11_reject_conflict.
+
+(* nothing else is rejected *)
+Theorem C11_accept : forall b f, accepts b f -> exists b', model_step b f = (VOk, b').
+Proof. exact accept_ok. Qed.
+Print Assumptions C11_accept.
+
+(* The fourth reject of the Spec -- a final fragment that ends below data that
+   was already accepted (VLateEnd) -- is NOT what the code does: finding F8.
+     full statement (refuted):  forall h, model_trace new h = spec_trace spec_new h
+   C11_refines above is that statement outside KnownClass; the witness: *)
+Definition f8_first : frag := mkFrag 0 true [0;1;2;3;4;5;6;7;8;9;10;11;12;13;14;15].
+Definition f8_second : frag := mkFrag 1 false [170;187;204;221].
+
+Theorem C11_refines_refuted :
+  KnownClass [f8_first; f8_second] /\
+  model_trace (buf_new 17 [] []) [f8_first; f8_second] <> spec_trace spec_new [f8_first; f8_second] /\
+  (* accepted, complete, 12 bytes *)
+  map (fun o : obs => (fst (fst o), snd (fst o))) (model_trace (buf_new 17 [] []) [f8_first; f8_second])
+    = [(VOk, false); (VOk, true)] /\
+  option_map (@length _) (snd (last (model_trace (buf_new 17 [] []) [f8_first; f8_second]) (VOk, false, None)))
+    = Some 12%nat /\
+  (* the same two fragments in the other order: rejected *)
+  map (fun o : obs => fst (fst o)) (model_trace (buf_new 17 [] []) [f8_second; f8_first])
+    = [VOk; VConflict 12 16].
+Proof. exact f8_witness. Qed.
+Print Assumptions C11_refines_refuted.
+
+(* ---- the pool ---- *)
+(* isolation: the answers to the deliveries of one stream id inside any
+   interleaving with deliveries for other ids and buffer returns are the answers
+   that id gets alone *)
+Theorem C11_isolation : forall ops p id,
+  results_for id (pool_trace p ops) = stream_trace (view id p) (for_id id ops).
+Proof. exact isolation. Qed.
+Print Assumptions C11_isolation.
+
+(* one stream, fragments of P (every one with the more-fragments flag or a
+   non-zero offset, otherwise the pool passes it through): nothing is returned
+   while the delivered fragments do not cover P ... *)
+Theorem C11_pool_never_early : forall P, len P <= 65535 -> forall ks,
+  (forall kt, In kt ks -> pkt_ok P kt) ->
+  (forall j, (j <= length ks)%nat -> ~ Covered P (firstn j (frags_of ks))) ->
+  stream_trace None ks = map (fun _ => PNone) ks.
+Proof. exact pool_never_early. Qed.
+Print Assumptions C11_pool_never_early.
+
+(* ... the delivery that completes the cover returns P with the packet's ip
+   number, and the stream is released (the next packet of the id starts afresh) *)
+Theorem C11_pool_completes : forall P, len P <= 65535 -> forall ks k ts,
+  (forall kt, In kt ks -> pkt_ok P kt) -> pkt_ok P (k, ts) ->
+  (forall j, (j <= length ks)%nat -> ~ Covered P (firstn j (frags_of ks))) ->
+  Covered P (frags_of ks ++ [k_frag k]) ->
+  stream_trace None (ks ++ [(k, ts)]) =
+    map (fun _ => PNone) ks ++ [PDone (k_ipn k) (k_v4 k) (map Some P)] /\
+  stream_run None (ks ++ [(k, ts)]) = None.
+Proof. exact pool_completes. Qed.
+Print Assumptions C11_pool_completes.
+
+(* unfragmented packets pass through: no answer, no state *)
+Theorem C11_passthrough : forall p k ts, is_fragmenting (k_frag k) = false ->
+  process p k ts = (PNone, p).
+Proof. exact passthrough. Qed.
+Print Assumptions C11_passthrough.
+
+(* whatever the history (reused buffers, conflicting fragments, F8 included):
+   a payload handed out by the pool contains no unwritten / stale byte and the
+   pool never reaches the out-of-range slice *)
+Theorem C11_pool_no_leak : forall ops id,
+  Forall res_ok (results_for id (pool_trace pool_new ops)).
+Proof. exact pool_no_leak. Qed.
+Print Assumptions C11_pool_no_leak.
+
+(* ---- non-vacuity ---- *)
+Definition exP : bytes := [1;2;3;4;5;6;7;8;9;10;11;12;13;14;15;16;17;18;19].
+Definition exCut : list frag := cut_at exP 0 [1; 1].
+
+Example C11_ex_cut : exCut = [mkFrag 0 true [1;2;3;4;5;6;7;8]; mkFrag 1 true [9;10;11;12;13;14;15;16];
+                              mkFrag 2 false [17;18;19]].
+Proof. vm_compute. reflexivity. Qed.
+
+(* hypotheses of C11_any_order hold for a reversed delivery with a duplicate *)
+Example C11_ex_hyp : len exP <= 65535 /\ Forall (frag_of exP) (nth 2 exCut f8_first :: nth 1 exCut f8_first :: nth 1 exCut f8_first :: nth 0 exCut f8_first :: nil).
+Proof.
+  split; [vm_compute; discriminate|].
+  pose proof (cut_frag_of exP [1; 1] 0) as H. rewrite Forall_forall in H.
+  assert (Hb : (0 + sumN [1; 1]) * 8 <= len exP) by (vm_compute; discriminate).
+  repeat constructor; apply H; try exact Hb; vm_compute; tauto.
+Qed.
+
+Example C11_ex_trace :
+  model_trace (buf_new 17 [Some 255] [mkRange 0 1])
+    [nth 2 exCut f8_first; nth 1 exCut f8_first; nth 1 exCut f8_first; nth 0 exCut f8_first]
+  = [(VOk, false, None); (VOk, false, None); (VOk, false, None); (VOk, true, Some (map Some exP))].
+Proof. vm_compute. reflexivity. Qed.
+
+(* hypotheses of the three reject theorems *)
+Example C11_ex_rejects :
+  let b := model_run (buf_new 17 [] []) [mkFrag 2 false [17;18;19]] in
+  model_step b (mkFrag 8191 false [1;2;3;4;5;6;7;8]) = (VTooBig 8191 8, b) /\
+  model_step b (mkFrag 0 true [1;2;3]) = (VUnaligned 0 3, b) /\
+  model_step b (mkFrag 2 true [1;2;3;4;5;6;7;8]) = (VConflict 19 24, b) /\
+  model_step b (mkFrag 2 false [1;2]) = (VConflict 19 18, b).
+Proof. vm_compute. repeat split; reflexivity. Qed.
+
+(* two interleaved streams through the pool model *)
+Example C11_ex_pool :
+  let k id f := mkPkt [id] true 17 f in
+  map snd (pool_trace pool_new
+    [ODeliver (k 1 (mkFrag 1 false [9])) 1; ODeliver (k 2 (mkFrag 0 true [1;2;3;4;5;6;7;8])) 1;
+     ODeliver (k 2 (mkFrag 1 false [7])) 2; ODeliver (k 1 (mkFrag 0 true [8;7;6;5;4;3;2;1])) 2])
+  = [PNone; PNone; PDone 17 true (map Some [1;2;3;4;5;6;7;8;7]); PDone 17 true (map Some [8;7;6;5;4;3;2;1;9])].
+Proof. vm_compute. reflexivity. Qed.
